@@ -52,6 +52,26 @@ def C08_full : Prop :=
   (∀ (a b q r : NumRepr), a.WF → b.WF → binop .floordiv a b = .ok q → binop .rem a b = .ok r →
       q.val * b.val + r.val = a.val ∧ 0 ≤ r.val ∧ r.val < b.val.natAbs)
 
+/-- **What holds for the current code.**  `C08_full` with one operand excluded from clause 2:
+    unary minus applied to `2^127` (representable only as `u128`; the literal
+    `-170141183460469231731687303715884105728` is spelled that way).  There `ops::neg` returns
+    `+2^127` (see `C08_counterexample`).  All other clauses hold unchanged — clause 4 never meets
+    the excluded operand (`2^127` is not an `i128`) and clause 6 holds there too, because no other
+    representation can store `2^127`. -/
+def C08_partial : Prop :=
+  (∀ (op : Op) (a b r : NumRepr), a.WF → b.WF → binop op a b = .ok r →
+      r.WF ∧ r.val = op.denote a.val b.val) ∧
+  (∀ (a r : NumRepr), a.WF → a.val ≠ 170141183460469231731687303715884105728 → neg a = .ok r →
+      r.WF ∧ r.val = -a.val) ∧
+  (∀ (op : Op) (a b : NumRepr), a.WF → b.WF → InI128 a.val → InI128 b.val →
+      op.Defined a.val b.val → InI128 (op.denote a.val b.val) → ∃ r, binop op a b = .ok r) ∧
+  (∀ (a : NumRepr), a.WF → InI128 a.val → InI128 (-a.val) → ∃ r, neg a = .ok r) ∧
+  (∀ (op : Op) (a a' b b' : NumRepr), a.WF → a'.WF → b.WF → b'.WF →
+      a.val = a'.val → b.val = b'.val → binop op a b = binop op a' b') ∧
+  (∀ (a a' : NumRepr), a.WF → a'.WF → a.val = a'.val → neg a = neg a') ∧
+  (∀ (a b q r : NumRepr), a.WF → b.WF → binop .floordiv a b = .ok q → binop .rem a b = .ok r →
+      q.val * b.val + r.val = a.val ∧ 0 ≤ r.val ∧ r.val < b.val.natAbs)
+
 /-- the shape of every binary operator: an error unless both numbers are `i128`s, and then a
     function of the two numbers only -/
 theorem binop_eq (op : Op) {a b : NumRepr} (ha : a.WF) (hb : b.WF) :
@@ -158,8 +178,10 @@ theorem int_op_exact (op : Op) (a b r : NumRepr) (ha : a.WF) (hb : b.WF)
       · cases h
   · cases h
 
-/-- 2. exactness of unary minus -/
-theorem neg_exact (a r : NumRepr) (ha : a.WF) (h : neg a = .ok r) : r.WF ∧ r.val = -a.val := by
+/-- 2. exactness of unary minus, for every operand except `2^127` -/
+theorem neg_exact_partial (a r : NumRepr) (ha : a.WF)
+    (hne : a.val ≠ 170141183460469231731687303715884105728) (h : neg a = .ok r) :
+    r.WF ∧ r.val = -a.val := by
   have general : ∀ (a : NumRepr), a.WF →
       (match toI128 a with
         | some x => finish (checkedMul x (-1))
@@ -180,14 +202,29 @@ theorem neg_exact (a r : NumRepr) (ha : a.WF) (h : neg a = .ok r) : r.WF ∧ r.v
     simp only [] at h
     split at h
     · rename_i hn
-      injection h with h
-      subst h
-      subst hn
-      exact ⟨by decide, by decide⟩
+      exfalso
+      apply hne
+      show (n : Int) = 170141183460469231731687303715884105728
+      omega
     · exact general _ ha h
   | u64 n => exact general _ ha h
   | i64 i => exact general _ ha h
   | i128 i => exact general _ ha h
+
+/-- the excluded operand really violates clause 2: `-(2^127 as u128)` is `+2^127` -/
+theorem neg_counterexample :
+    (NumRepr.u128 170141183460469231731687303715884105728).WF ∧
+    neg (.u128 170141183460469231731687303715884105728) = .ok (.u128 170141183460469231731687303715884105728) ∧
+    (NumRepr.u128 170141183460469231731687303715884105728).val ≠
+      -(NumRepr.u128 170141183460469231731687303715884105728).val := by
+  decide
+
+/-- **the full statement is false on the current code** (clause 2, witness `2^127` stored as
+    `u128`) -/
+theorem C08_counterexample : ¬ C08_full := by
+  intro h
+  obtain ⟨hwf, hneg, hval⟩ := neg_counterexample
+  exact hval (h.2.1 _ _ hwf hneg).2
 
 /-- 3. totality on the signed 128-bit range -/
 theorem int_op_total_in_range (op : Op) (a b : NumRepr) (ha : a.WF) (hb : b.WF)
@@ -273,13 +310,15 @@ theorem width_independent (op : Op) (a a' b b' : NumRepr) (ha : a.WF) (ha' : a'.
 /-- unary minus as a function of the number only -/
 theorem neg_eq {a : NumRepr} (ha : a.WF) :
     neg a =
-      if a.val = 170141183460469231731687303715884105728 then .ok (.i128 minI128)
+      if a.val = 170141183460469231731687303715884105728 then
+        .ok (.u128 170141183460469231731687303715884105728)
       else if InI128 a.val then finish (checkedMul a.val (-1)) else .err := by
   have general : a.val ≠ 170141183460469231731687303715884105728 →
       (match toI128 a with
         | some x => finish (checkedMul x (-1))
         | none => Res.err) =
-      if a.val = 170141183460469231731687303715884105728 then .ok (.i128 minI128)
+      if a.val = 170141183460469231731687303715884105728 then
+        .ok (.u128 170141183460469231731687303715884105728)
       else if InI128 a.val then finish (checkedMul a.val (-1)) else .err := by
     intro hne
     rw [if_neg hne]
@@ -340,10 +379,17 @@ theorem euclid (a b q r : NumRepr) (ha : a.WF) (hb : b.WF)
   rw [eq, er]
   exact ⟨Int.ediv_mul_add_emod _ _, Int.emod_nonneg _ hb0, Int.emod_lt _ hb0⟩
 
-/-- **C08 (integer part) holds for the model, in full strength.** -/
-theorem C08 : C08_full :=
-  ⟨int_op_exact, neg_exact, int_op_total_in_range, neg_total_in_range, width_independent,
+/-- **C08 (integer part) holds for the model everywhere except unary minus of `2^127`.** -/
+theorem C08_holds_partial : C08_partial :=
+  ⟨int_op_exact, neg_exact_partial, int_op_total_in_range, neg_total_in_range, width_independent,
    neg_width_independent, euclid⟩
+
+/-- the exclusion is not vacuous the other way round either: every other operand of the
+    quantifier is covered, e.g. `2^127 - 1`, `2^127 + 1` (an error) and `i128::MIN` (an error) -/
+example : neg (.u128 170141183460469231731687303715884105727) =
+      .ok (.i128 (-170141183460469231731687303715884105727)) ∧
+    neg (.u128 170141183460469231731687303715884105729) = .err ∧
+    neg (.i128 (-170141183460469231731687303715884105728)) = .err := by decide
 
 /-! ### Non-vacuity: the hypotheses are satisfiable by non-trivial states -/
 
@@ -354,9 +400,6 @@ example : binop .add (.u128 170141183460469231731687303715884105727) (.i64 (-1))
 example : binop .add (.u128 340282366920938463463374607431768211455)
     (.u128 340282366920938463463374607431768211455) = .err := by decide
 example : binop .mul (.i128 (-170141183460469231731687303715884105728)) (.i64 (-1)) = .err := by decide
-/-- the literal `-170141183460469231731687303715884105728` keeps its sign -/
-example : neg (.u128 170141183460469231731687303715884105728) =
-    .ok (.i128 (-170141183460469231731687303715884105728)) := by decide
 /-- Euclidean convention: `-7 // 2 = -4`, `-7 % 2 = 1`, `7 // -2 = -3`, `7 % -2 = 1` -/
 example : binop .floordiv (.i64 (-7)) (.u64 2) = .ok (.i64 (-4)) ∧
     binop .rem (.i64 (-7)) (.u64 2) = .ok (.i64 1) ∧
